@@ -111,6 +111,14 @@ Theorem no_stale_options_decided : if no_finding_b then no_stale_options else ~ 
 Proof. exact ProofsTable.no_stale_options_decided. Qed.
 Print Assumptions no_stale_options_decided.
 
+(* What holds on the current tree: NO attribute is classed `finding` except the explicitly listed by-design ones
+   (gen/OptionsClass.by_design, today: skip_version_check, whose model witness is lax_platform_refuted below and whose
+   implementation witness is replayed by S as known finding F4:skip_version_check); every listed one IS a finding. *)
+Theorem no_stale_options_except_by_design :
+  no_stale_options_except by_design /\ (forall a, In a by_design -> class_of a = Some Finding).
+Proof. exact ProofsTable.no_stale_options_except_by_design. Qed.
+Print Assumptions no_stale_options_except_by_design.
+
 (* and in the model such an attribute does give a stale warm run, while a key attribute does not *)
 Theorem stale_outside_key_refuted :
   let K := options_affecting_cache_no_platform in
